@@ -433,8 +433,13 @@ func Random(rng *rand.Rand, o GenOpts, base int) *Journal {
 		if o.DensePrices {
 			np = 12 + rng.Intn(20)
 		}
+		seenDay := map[int]bool{base - 3: true}
 		for k := 0; k < np; k++ {
-			pd = append(pd, base+rng.Intn(span))
+			z := base + rng.Intn(span)
+			if !seenDay[z] { // never two prices for one pair on one day (ambiguous by construction)
+				seenDay[z] = true
+				pd = append(pd, z)
+			}
 		}
 		aaplT := []string{"USD", "CHF"}[rng.Intn(2)]
 		for _, z := range pd {
